@@ -394,6 +394,7 @@ def refused_root_histories():
             ("none", mk("o1", 1, root="objs/o1") + mk("o2", 2, root="objs/o1/sub"), "objs/o1/sub"),
             ("none", mk("o1", 1, root="../x"), "../x"),
             ("none", mk("o1", 1, root="extensions/x"), "extensions/x"),
+            ("0002", mk("/a"), "/a"),                                              # leading slash: refused alike since /repo commit 2517003
             ("0002", mk("obj1/sub") + mk("obj1", 2), "obj1"),
             ("0002", mk("obj1") + mk("obj1/v1/content", 2), "obj1/v1/content")]
 
@@ -405,7 +406,7 @@ def guarded_purge_histories():
     pu = lambda oid: [{"op": "purge", "id": oid}]
     return [("0002", mk("coll/obj1") + pu("coll") + pu("coll/obj1") + mk("coll", 3), None),   # directory other objects are stored beneath
             ("0002", mk("obj1") + pu("obj1/v1") + pu("obj1"), None),                           # path inside another object
-            ("0002", mk("obj1") + pu("obj1/") + pu("obj1"), None),                            # another id, same root after trimming
+            ("0002", mk("obj1") + pu("obj1/") + pu("/obj1") + pu("obj1"), None),                            # another id, same root after trimming
             ("0002", mk("obj1") + pu("extensions") + pu("extensions/0002-flat-direct-storage-layout"), None),
             ("0002", mk("obj1") + pu("../obj1") + pu("x/../../y"), None),
             ("0006", mk("urn:obj:1") + pu("other:1") + pu("urn:obj:1") + mk("other:1", 2), None),   # two ids, one root
@@ -420,8 +421,6 @@ def unnormalised_root_histories():
     refuses them (validate_object_root, s3.rs:249-255) - layout 0002 ids `a//b`, `./x`, `a/./b`, explicit roots `a//b`, `./x`;
     an id with a trailing slash under layout 0002 (`a/b/`) is stored alike at a/b by both, but the file-system store
     reports object_root `a/b/` and storage paths `a/b//v1/...` where S3 reports `a/b` and `a/b/v1/...`;
-    an id with a leading slash under layout 0002 (`/a`): the file-system store refuses it (absolute path, IllegalState) at
-    commit and at purge, the S3 store trims the slash (s3.rs:492, 599) and creates the object at `a` resp. answers the purge Ok;
     the ids `.` and `obj1/..` under layout 0002 (the path resolves to the storage root): purge is refused alike, but
     validate_object validates the storage root itself as an object on the file system (E003, E063) and answers NotFound on S3.
     (Roots with a `..` part are refused alike for create and purge: those inputs are in the must-pass sets.)"""
@@ -429,7 +428,7 @@ def unnormalised_root_histories():
     pu = lambda oid: [{"op": "purge", "id": oid}]
     return [("0002", mk("a//b"), "a//b"), ("0002", mk("./x"), "./x"), ("0002", mk("a/./b"), "a/./b"), ("0002", mk("a/b/"), None),
             ("none", mk("o1", 1, root="a//b"), "a//b"), ("none", mk("o1", 1, root="./x"), "./x"),
-            ("0002", mk("/a"), None), ("0002", mk("obj1") + pu("/obj1"), None), ("0002", mk("obj1") + pu("."), None), ("0002", mk("obj1") + pu("obj1/.."), None)]
+            ("0002", mk("obj1") + pu("."), None), ("0002", mk("obj1") + pu("obj1/.."), None)]
 
 
 OVERLAP = [
